@@ -30,15 +30,42 @@ def matMul {α : Type} [Add α] [Mul α] [OfNat α 0] (a b : List (List α)) : L
 /-- `rgb2grey`: `np.dot(array, [0.30, 0.59, 0.11])` -/
 def grey {α : Type} [Add α] [Mul α] [OfNat α 0] (w : List α) (r g b : α) : α := dot w [r, g, b]
 
-/-! ## transfer functions (Float; `pow` is not available in exact arithmetic) -/
+/-! ## transfer functions
 
-/-- sRGB decoding of one channel value `c ∈ [0,255]`; `lowBelow` says which alternative
-    `np.choose` takes where `c/255 ≤ knee` (the standard: the linear segment). -/
+Written once, generic in the scalar type and its power function: the driver runs them at `Float` with
+`Float.pow` and the extracted `…F` constants, the monotonicity / white-point theorems
+(`Proofs/C20Real.lean`) are about the same definitions at `ℝ` with `Real.rpow` and the exact rationals
+`…Q` of the same decimal literals. The small integer literals of the source (`1.`, `1/3.`, `29./6`,
+`4/29.`, `116`, `16`, `500`, `200`) are passed as a record so that the `Float` instance keeps the
+literal spelling. -/
+
+/-- the integer literals occurring in `colors.py`, at the scalar type in use -/
+structure Lits (α : Type) where
+  one : α
+  three : α
+  four : α
+  six : α
+  twentyNine : α
+  c16 : α
+  c116 : α
+  c200 : α
+  c500 : α
+
+def litsF : Lits Float := ⟨1.0, 3.0, 4.0, 6.0, 29.0, 16.0, 116.0, 200.0, 500.0⟩
+
+/-- sRGB decoding of one channel value `c ∈ [0,255]`, generic: `x = c/scale`,
+    `high = ((x+a)/(1+a))^gamma`, `low = x/slope`; `lowBelow` says which alternative
+    `np.choose` takes where `x ≤ knee` (the standard: the linear segment). -/
+def srgbToLinearG {α : Type} [Add α] [Div α] [LE α] [DecidableLE α]
+    (pow : α → α → α) (one scale a gamma slope knee : α) (lowBelow : Bool) (c : α) : α :=
+  let x := c / scale
+  let high := pow ((x + a) / (one + a)) gamma
+  let low := x / slope
+  if x ≤ knee then (if lowBelow then low else high) else (if lowBelow then high else low)
+
+/-- sRGB decoding at `Float` with the extracted constants -/
 def srgbToLinearWith (lowBelow : Bool) (c : Float) : Float :=
-  let x := c / srgbScaleF
-  let high := Float.pow ((x + srgbAF) / (1.0 + srgbAF)) srgbGammaF
-  let low := x / srgbSlopeF
-  if x ≤ srgbKneeF then (if lowBelow then low else high) else (if lowBelow then high else low)
+  srgbToLinearG Float.pow litsF.one srgbScaleF srgbAF srgbGammaF srgbSlopeF srgbKneeF lowBelow c
 
 /-- sRGB encoding of one linear value, result scaled to 0..255 -/
 def linearToSrgbWith (lowBelow : Bool) (v : Float) : Float :=
@@ -46,27 +73,40 @@ def linearToSrgbWith (lowBelow : Bool) (v : Float) : Float :=
   let low := srgbSlopeInvF * v
   (if v ≤ srgbKneeInvF then (if lowBelow then low else high) else (if lowBelow then high else low)) * 255.0
 
-/-- the CIE L*a*b* helper `f`; `smallBelow` = which alternative is taken where `t ≤ (6/29)^k` -/
-def labFWith (smallBelow : Bool) (k : Nat) (t : Float) : Float :=
-  let large := Float.pow t (1.0 / 3.0)
-  let small := ((1.0 / 3.0) * (29.0 / 6.0) * (29.0 / 6.0)) * t + 4.0 / 29.0
-  let knee := Float.pow (labDeltaNumF / labDeltaDenF) (Float.ofNat k)
+/-- the CIE L*a*b* helper `f`, generic: `large = t^(1/3)`, `small = ((1/3)(29/6)(29/6)) t + 4/29`,
+    knee `(δnum/δden)^k`; `smallBelow` = which alternative is taken where `t ≤ knee` -/
+def labFG {α : Type} [Add α] [Mul α] [Div α] [LE α] [DecidableLE α]
+    (pow : α → α → α) (natCast : Nat → α) (L : Lits α) (dnum dden : α) (smallBelow : Bool) (k : Nat) (t : α) : α :=
+  let large := pow t (L.one / L.three)
+  let small := ((L.one / L.three) * (L.twentyNine / L.six) * (L.twentyNine / L.six)) * t + L.four / L.twentyNine
+  let knee := pow (dnum / dden) (natCast k)
   if t ≤ knee then (if smallBelow then small else large) else (if smallBelow then large else small)
 
+def labFWith (smallBelow : Bool) (k : Nat) (t : Float) : Float :=
+  labFG Float.pow Float.ofNat litsF labDeltaNumF labDeltaDenF smallBelow k t
+
+/-- `rgb2xyz`, generic: the transfer function on each channel, then the matrix -/
+def rgb2xyzG {α : Type} [Add α] [Mul α] [OfNat α 0] (m : List (List α)) (transfer : α → α) (rgb : List α) : List α :=
+  matVec m (rgb.map transfer)
+
 def rgb2xyzWith (lowBelow : Bool) (rgb : List Float) : List Float :=
-  matVec rgb2xyzMF (rgb.map (srgbToLinearWith lowBelow))
+  rgb2xyzG rgb2xyzMF (srgbToLinearWith lowBelow) rgb
 
 def xyz2rgbWith (lowBelow : Bool) (xyz : List Float) : List Float :=
   (matVec xyz2rgbMF xyz).map (linearToSrgbWith lowBelow)
 
-def xyz2labWith (smallBelow : Bool) (k : Nat) (xyz : List Float) : List Float :=
-  match xyz, labWhiteF with
+/-- `xyz2lab`, generic: `L = 116 f(y/yn) − 16`, `a = 500 (f(x/xn) − f(y/yn))`, `b = 200 (f(y/yn) − f(z/zn))` -/
+def xyz2labG {α : Type} [Sub α] [Mul α] [Div α] (f : α → α) (L : Lits α) (white xyz : List α) : List α :=
+  match xyz, white with
   | [x, y, z], [xn, yn, zn] =>
-    let fx := labFWith smallBelow k (x / xn)
-    let fy := labFWith smallBelow k (y / yn)
-    let fz := labFWith smallBelow k (z / zn)
-    [116.0 * fy - 16.0, 500.0 * (fx - fy), 200.0 * (fy - fz)]
+    let fx := f (x / xn)
+    let fy := f (y / yn)
+    let fz := f (z / zn)
+    [L.c116 * fy - L.c16, L.c500 * (fx - fy), L.c200 * (fy - fz)]
   | _, _ => []
+
+def xyz2labWith (smallBelow : Bool) (k : Nat) (xyz : List Float) : List Float :=
+  xyz2labG (labFWith smallBelow k) litsF labWhiteF xyz
 
 /-- model of the code as it is (selections as extracted) -/
 def rgb2xyz := rgb2xyzWith fwdLowWhenBelow
